@@ -268,3 +268,100 @@ def corr_check_orders(drv) -> Result:
                 res.fail("_check_orders differs", max_order=mo, orders=od, impl=impl, model=mm)
     res.counters["exhaustive_over"] = "max_order 0..6, orders lists over {0..5} up to length 3"
     return res
+
+
+def corr_api_multi(rng, drv, n_hist=10, hist_len=9) -> Result:
+    """SEVERAL real Symfc objects on one supercell (same or different cutoffs) handing their basis-set dicts to each
+    other (`b.basis_set = a.basis_set` shares the dict) vs Model/ApiMulti.lean: per step the exception kind; for solves
+    the keys written; at the end, for every object, which basis set (order, cutoff) it holds — including entries that
+    were replaced THROUGH a shared dict by another object."""
+    res = Result("api_multi_object", "correspondence")
+    crystals = small_crystals()
+    from symfc import Symfc
+    with Timer(res):
+        for h in range(n_hist):
+            cr = crystals[h % len(crystals)]
+            N = len(cr.numbers)
+            np_rng = np.random.default_rng(rng.getrandbits(32))
+            n_obj = rng.randint(2, 3)
+            consistent = rng.random() < 0.5
+            base_cut = {2: rng.choice([None, 30.0]), 3: None, 4: None}
+            objs, cut_tok, ops_json, impl = [], [], [], []
+            arrays = {}
+            next_id = [1]
+
+            def tok(v):
+                return None if v is None else int(round(v * 1000))
+            for i in range(n_obj):
+                cut = dict(base_cut) if (consistent or i == 0) else {2: rng.choice([None, 30.0, 31.0]), 3: rng.choice([None, 29.0]), 4: None}
+                objs.append(Symfc(cr.atoms(), cutoff=dict(cut)))
+                cut_tok.append({k: tok(v) for k, v in cut.items()})
+                ops_json.append({"t": "new", "natom": N, "cfgId": 1, "cutoff": [{"key": k, "val": tok(cut[k])} for k in (2, 3, 4)]})
+                impl.append({"result": "ok"})
+            for step in range(hist_len):
+                kind = rng.choices(["setDisp", "setForces", "handOver", "computeBasis", "solve"], weights=[2, 2, 3, 4, 4])[0]
+                i = rng.randrange(n_obj)
+                mo, od = rng.choice(ORDER_SPECS[:5] + ORDER_SPECS[8:10]) if rng.random() < 0.85 else rng.choice(ORDER_SPECS)
+                compact = rng.random() < 0.5
+                exc = None
+                rec = {}
+                try:
+                    if kind in ("setDisp", "setForces"):
+                        t = next_id[0]
+                        next_id[0] += 1
+                        arrays[t] = np_rng.normal(scale=0.05, size=(70, N, 3))
+                        if kind == "setDisp":
+                            objs[i].displacements = arrays[t]
+                        else:
+                            objs[i].forces = arrays[t]
+                        ops_json.append({"t": kind, "obj": i, "id": t, "shape": [70, N, 3]})
+                    elif kind == "handOver":
+                        j = rng.randrange(n_obj)
+                        ops_json.append({"t": kind, "dst": i, "src": j})
+                        objs[i].basis_set = objs[j].basis_set
+                    elif kind == "computeBasis":
+                        ops_json.append({"t": kind, "obj": i, "max_order": mo, "orders": od})
+                        objs[i].compute_basis_set(max_order=mo, orders=od)
+                    else:
+                        ops_json.append({"t": kind, "obj": i, "max_order": mo, "orders": od, "compact": compact})
+                        objs[i].solve(max_order=mo, orders=od, is_compact_fc=compact)
+                        rec["fc_keys"] = sorted(objs[i].force_constants.keys())
+                except np.linalg.LinAlgError:
+                    exc = "linalg"
+                except Exception as e:  # noqa
+                    exc = classify(e)
+                    if exc.startswith("other:") and kind == "computeBasis":
+                        exc = "linalg"
+                rec["result"] = exc or "ok"
+                if kind == "solve" and "fc_keys" not in rec:
+                    rec["fc_keys"] = sorted(objs[i].force_constants.keys())
+                impl.append(rec)
+                if exc == "linalg":
+                    break
+            if impl[-1]["result"] == "linalg":
+                res.count("history_dropped_numerical")
+                continue
+            held = [sorted([k, 1, (None if b._fc_cutoff is None else int(round(b._fc_cutoff._cutoff * 1000)))]
+                           for k, b in o.basis_set.items()) for o in objs]
+            shared = any(objs[a].basis_set is objs[b].basis_set for a in range(n_obj) for b in range(a))
+            req = {"op": "api_multi", "ops": ops_json}
+            m = drv.ask(req)
+            res.case(req, True, sample={"crystal": cr.name, "n_objects": n_obj, "consistent": consistent, "ops": ops_json[:6]})
+            res.count("consistent_configurations" if consistent else "different_cutoffs")
+            res.count("dict_shared_at_end" if shared else "no_dict_shared_at_end")
+            ok = True
+            for k_, (a, b) in enumerate(zip(impl, m["steps"])):
+                res.count("op_" + ops_json[k_]["t"])
+                if a["result"] != b["result"]:
+                    res.fail("multi-object API step differs", step=k_, ops=ops_json[: k_ + 1], impl=a["result"], model=b["result"])
+                    ok = False
+                    break
+                if "fc_keys" in a and "fc" in b and a["fc_keys"] != sorted(e["key"] for e in b["fc"]):
+                    res.fail("force-constant keys differ after a solve", step=k_, ops=ops_json[: k_ + 1],
+                             impl=a["fc_keys"], model=sorted(e["key"] for e in b["fc"]))
+                    ok = False
+                    break
+            if ok and [sorted(x) for x in m["basis"]] != held:
+                res.fail("basis sets held by the objects (order, cutoff) differ from the model — dict sharing",
+                         ops=ops_json, impl=held, model=m["basis"])
+    return res
